@@ -49,7 +49,7 @@ Proof. intros E orders dir T r1 r2 H1 H2. rewrite H1 in H2. injection H2 as <-. 
 Definition xE : env := fun n => match n with
   | 0 => Some (NClass {| cflavour := FPlain;
                           cfields := [ {| fname := 0; fty := TLeaf 9; fdefault := None |};
-                                       {| fname := 1; fty := TSeq KList (TLeaf 9); fdefault := None |} ] |})
+                                       {| fname := 1; fty := TSeq KList (TLeaf 9); fdefault := None |} ]; crequired := [] |})
   | _ => None end.
 Definition xOrder : list node :=
   [ {| ntype := TLeaf 9; nunw := TLeaf 9; ncyc := false |};
